@@ -42,7 +42,7 @@ def run(ctx):
                       'discriminant; every root inside (0,1) and both end points are evaluated; degenerate leading coefficient falls back', 1)
     ctx.rule('R08.2', 'generic Bezier box: real/imag derivative polynomials go to the root finder with a filter no stricter than 0<r<1; '
                       'candidate sets contain 0 and 1', 2)
-    ctx.rule('R08.3', 'slot protocol: producers return (min re, max re, min im, max im); consumers unpack in that order', 8)
+    ctx.rule('R08.3', 'slot protocol: producers return (min re, max re, min im, max im); consumers unpack in that order', 7)
     ctx.rule('R08.4', 'Arc.bbox: critical angles annihilate the coordinate derivatives, parameters solve angle(t) = atan + k*pi, '
                       'k covers -3..3, end points are candidates', 4)
     ctx.rule('R08.5', 'Path.bbox / big_bounding_box: min of mins, max of maxes per slot', 2)
@@ -173,19 +173,41 @@ def run(ctx):
             return False, 'the four corners are not (xmin|xmax) + 1j(ymin|ymax)'
         return decide_all_equal([('joint %d' % i, v[i][1], v[(i + 1) % 4][0]) for i in range(4)])
     ob('R08.3').run(fb2p, 'bbox2path corners and closure', th_b2p, judge_b2p)
-    # unpack order in the remaining consumers (names carry the protocol)
-    for q in ('path.Path.is_contained_by', 'paths2svg.disvg'):
-        f = mdl.func(q)
-        found = False
-        ok = True
-        for n_ in ast.walk(f.node):
-            if isinstance(n_, ast.Assign) and isinstance(n_.targets[0], ast.Tuple) and len(n_.targets[0].elts) == 4 and \
-                    isinstance(n_.value, ast.Call) and call_name(n_.value) in ('bbox', 'big_bounding_box'):
-                found = True
-                names = [e.id for e in n_.targets[0].elts if isinstance(e, ast.Name)]
-                ok = ok and names == ['xmin', 'xmax', 'ymin', 'ymax']
-        ctx.record('R08.3', f.qualname, 'unpacks bbox() as xmin, xmax, ymin, ymax', found and ok,
-                   detail='' if found and ok else 'unpack order differs from the producers', where=where(f), nontrivial=False)
+    # disvg turns the big bounding box into a viewBox "xmin ymin width height" (semantic check of its slot use)
+    fdis = mdl.func('paths2svg.disvg')
+    bx0, bx1, by0, by1 = [Rat.sym(n_) for n_ in ('bx0', 'bx1', 'by0', 'by1')]
+
+    def th_dis(it):
+        from svtstatic.values import PyFunc
+        got = {}
+        dwg = Opaque('Drawing')
+        dwg.attrs['path'] = PyFunc(lambda it2, a, k: 'PATHEL', 'path')
+        dwg.attrs['add'] = PyFunc(lambda it2, a, k: None, 'add')
+        it.ext_hooks['svgwrite.Drawing'] = lambda it2, a, k: got.update(k) or dwg
+        for nm in ('os.path.join', 'os.path.abspath', 'os.path.dirname', 'os.path.splitext', 'os.path.split'):
+            it.ext_hooks[nm] = lambda it2, a, k: 'PATHSTR'
+        it.ext_hooks['os.path.exists'] = lambda it2, a, k: True
+        it.call_hooks['paths2svg.big_bounding_box'] = lambda it2, a, k: (bx0, bx1, by0, by1)
+        it.call_hooks['path.Path.d'] = lambda it2, a, k: 'D'
+        p1 = it.construct('path.Path', it.construct('path.Line', Rat.csym('a'), Rat.csym('b')))
+        it.call(it.closure_of('paths2svg.disvg'), [[p1]], {'filename': 'f.svg', 'paths2Drawing': True, 'openinbrowser': False,
+                                                            'stroke_widths': [Rat.const(0)], 'margin_size': Rat.sym('mg')})
+        return got
+
+    def judge_dis(v):
+        vb = v.get('viewBox')
+        from svtstatic.values import StrT, Hole
+        if not isinstance(vb, StrT):
+            return False, 'viewBox is %r' % (vb,)
+        holes = [to_rat(p_.value) for p_ in vb.parts if isinstance(p_, Hole)]
+        if len(holes) != 4:
+            return False, 'viewBox has %d numbers' % len(holes)
+        mg = Rat.sym('mg')
+        dx, dy = bx1 - bx0, by1 - by0
+        return decide_all_equal([('viewBox x', holes[0], bx0 - mg * dx), ('viewBox y', holes[1], by0 - mg * dy),
+                                 ('viewBox width', holes[2], dx + 2 * mg * dx), ('viewBox height', holes[3], dy + 2 * mg * dy)])
+    ob('R08.3').run(fdis, 'disvg: viewBox = (xmin - m dx, ymin - m dy, dx(1+2m), dy(1+2m)) from big_bounding_box', th_dis, judge_dis,
+                    opts={'presign': [(bx1 - bx0, '+'), (by1 - by0, '+')]})
 
     # ---------------------------------------------------------------- R08.4 Arc.bbox
     _arc_bbox(ctx, mdl)
